@@ -13,4 +13,17 @@ int vf_logts(char *out, long secs, long nsecs, unsigned dplaces)
     out[ii] = ii < n ? p[ii] : 0;
   return int(n);
 }
+// model validation only: one fixed-precision double through a real std::ostringstream (setw/setfill/setprecision/fixed), independent of
+// how GetTimeAsStringMS happens to render its seconds; the translated version runs on models/ostream_fmt.c and is compared with printf
+int vf_fmt_fixed(char *out, double x, unsigned width, unsigned prec)
+{
+  std::ostringstream oss;
+  oss.setf(std::ios::showpoint); oss.setf(std::ios::fixed);
+  oss << std::setw(width) << std::setfill('0') << std::setprecision(prec) << x << ' ' << std::setw(4) << int(prec) << '|' << std::setfill(' ') << std::setw(3) << 'c';
+  const std::string res(oss.str());
+  const unsigned n(res.size()); const char *p(res.data());
+  for (unsigned ii(0); ii < 40; ++ii)
+    out[ii] = ii < n ? p[ii] : 0;
+  return int(n);
+}
 }
